@@ -915,8 +915,12 @@ class _DescrTxBase(FnCheck):
         return z3.Select(dk, key), z3.Select(st.get_arr('f:old'), item), z3.Select(st.get_arr('f:new'), item)
 
     def unchanged_queue(self, st0, st):
-        return z3.And(z3.Select(st.get_arr('DK'), self.upd.e) == z3.Select(st0.get_arr('DK'), self.upd.e),
-                      z3.Select(st.get_arr('DV'), self.upd.e) == z3.Select(st0.get_arr('DV'), self.upd.e))
+        # the same keys with the same items (what is stored under a key that is not in the dict is immaterial)
+        k = z3.Const('k!uq', Val)
+        dk0, dk1 = z3.Select(st0.get_arr('DK'), self.upd.e), z3.Select(st.get_arr('DK'), self.upd.e)
+        dv0, dv1 = z3.Select(st0.get_arr('DV'), self.upd.e), z3.Select(st.get_arr('DV'), self.upd.e)
+        return z3.ForAll([k], z3.And(z3.Select(dk1, k) == z3.Select(dk0, k),
+                                     z3.Implies(z3.Select(dk0, k), z3.Select(dv1, k) == z3.Select(dv0, k))))
 
 
 @register
